@@ -622,7 +622,7 @@ def run(chk: Check):
                       (["list", "tuple", "dict", "set", "deque"], ["list", "tuple", "dict", "defaultdict"], 2, 2, False,
                        list(range(1, 17)), [4], [1000, 0])]                                                    # every width 1..16
         else:
-            slices = [(["list", "tuple", "dict", "set", "deque"], ["list", "tuple", "dict"], 2, 2, False, [3, 7, 12, 40], [1, 4], [1000])]
+            slices = [(["list", "tuple", "dict", "set", "deque"], ["list", "tuple", "dict"], 2, 2, False, [3, 8, 40], [1, 4], [1000])]
         for sl in slices:
             r, cov, missing = tlc.model_check("MC_Pretty", cfg_text=m1_cfg(*sl, "fixed") + M1_CHECK,
                                               require_actions=["Start", "ExpandLn", "KeepLn", "Finish"], heap="8g")
@@ -665,7 +665,7 @@ def run(chk: Check):
         # ---- systematic family
         for rec in systematic():
             full = one_line_width(rec, env)
-            ws = range(1, full + 2) if chk.thorough else sorted(set([1, 6, 10, full - 1, full, full + 1] + [chk.rng.randint(1, full + 1) for _ in range(2)]))
+            ws = range(1, full + 2) if chk.thorough else sorted(set([1, 6, full - 1, full, full + 1] + [chk.rng.randint(1, full + 1) for _ in range(2)]))
             for w in ws:
                 if w >= 1:
                     cases.append((rec, dict(w=w, ind=4, xa=False, ml=-1, ms=-1), "systematic"))
